@@ -103,6 +103,33 @@ def copies (fd dd : Bool) (self : Nat) (consumers : List (Nat × Nat)) (t : Nat 
   if t.1 = self then (fanout dd onNode).count t.2
   else (remoteNodes fd self consumers).count t.1 * (fanout dd onNode).count t.2
 
+/-! A subscription racing with one publication (small-step). The subscriber inserts its relation and reads the last-N
+buffer (in the order the code has them, `ab` = relation first); the publisher pushes the message into the buffer and
+then fans it out to the consumers listed at that moment. -/
+namespace SubRace
+
+structure S where
+  added : Bool      -- the relation is in the table
+  snapped : Bool    -- the subscriber has read the buffer
+  pushed : Bool     -- the publication is in the buffer
+  fanned : Bool     -- the fan-out over the consumers has run
+  replay : Bool     -- the subscriber found the publication in the buffer
+  live : Bool       -- the fan-out delivered it to the subscriber
+deriving DecidableEq, Repr
+
+def S.init : S := ⟨false, false, false, false, false, false⟩
+
+inductive Lbl | sAdd | sSnap | pPush | pFan
+deriving DecidableEq, Repr
+
+def step (ab : Bool) (s : S) : Lbl → Option S
+  | .sAdd => if s.added then none else if !ab && !s.snapped then none else some { s with added := true }
+  | .sSnap => if s.snapped then none else if ab && !s.added then none else some { s with snapped := true, replay := s.pushed }
+  | .pPush => if s.pushed then none else some { s with pushed := true }
+  | .pFan => if s.fanned || !s.pushed then none else some { s with fanned := true, live := s.added }
+
+end SubRace
+
 def runOps (dc dd : Bool) (e : Ev) : List Op → Ev
   | [] => e
   | o :: os => runOps dc dd (step dc dd e o).1 os
